@@ -18,6 +18,8 @@ static BlockParameters build_bp(const ParamSpec& s) {
     case 3: h.query_response_hints = 0x3ffff & ~(1u << 1) & ~(1u << 7) & ~(7u << 12); h.query_response_signature_hints = 0x1ffff & ~1u & ~(1u << 8); h.rr_hints = 1; h.other_data_hints = 2; break;
     case 4: h.query_response_hints = 0; break;
     case 5: h.query_response_hints = 0x3ffff & ~1u; break; // no time offsets
+    case 6: h.query_response_hints = 0x15555 | 0x10; h.query_response_signature_hints = 0x0aaaa; h.rr_hints = 1; break;              // alternating members: neighbours in every map are split
+    case 7: h.query_response_hints = 0x2aaaa | 0x10; h.query_response_signature_hints = 0x15555; h.rr_hints = 2; break;
     }
     if (s.coll == 2) bp.collection_parameters = CollectionParameters();
     if (s.coll == 3) { CollectionParameters c; c.snaplen = 65535; bp.collection_parameters = c; }
